@@ -309,4 +309,30 @@ def checkAgainst (E : Env) (fuel : Nat) (p0 : Nat) (exp : Tm) (fresh : List V) (
             (σ'.filter fun p => exp.vars.contains p.1)
   | _ => .mismatch
 
+/-! ### a fuel that always suffices on acyclic substitutions (`unify_terminates_explicit`) -/
+
+mutual
+def Tm.size : Tm → Nat
+  | .var _ => 1
+  | .atom _ => 1
+  | .node _ as => 1 + sizeList as
+  | .targ t => 1 + t.size
+  | .carg c => 1 + c.size
+def sizeList : List Tm → Nat
+  | [] => 0
+  | a :: as => a.size + sizeList as
+end
+
+/-- recursion-depth bound for `unify s t σ`: with `U` the variables in play, `L = |σ| + |U|`, `Z0` the total
+    size of `s`, `t` and the images of `σ`, `A = 2·Z0+2`, `K2 = 2·L+2`, `B = K2·A + A`:
+    `|U|·(B+1) + (L+2) + K2·A + A` -/
+def fuelBound (s t : Tm) (σ : Subst) : Nat :=
+  let U := s.vars ++ t.vars ++ σ.flatMap (fun p => p.2.vars)
+  let L := σ.length + U.length
+  let Z0 := s.size + t.size + (σ.map (fun p => p.2.size)).sum
+  let A := 2 * Z0 + 2
+  let K2 := 2 * L + 2
+  let B := K2 * A + A
+  U.length * (B + 1) + (L + 2) + K2 * A + A
+
 end GuppyVerif.Unify
